@@ -75,7 +75,7 @@ func canonicalRel(ups int, names []string) string {
 
 func init() {
 	lanes["resolve"] = func(cfg *Config, rep *Report) {
-		rep.Rule = "bases of every kind (remote, registry, final registry, local) with sub-paths of depth 0..4 x canonical relative paths (0..5 '..' then 0..3 names over {a,b,c2}) enumerated exhaustively, plus random longer ones and (base, rel1, rel2) triples for composition; non-trivial = rel contains '..' or base has a sub-path; distinct by (base, rel[, rel2])"
+		rep.Rule = "bases of every kind (remote, registry, final registry, local) with sub-paths of depth 0..4 x canonical relative paths (0..5 '..' then 0..3 names over {a,b,c2}) enumerated exhaustively, final registry bases also with pre-release / build-metadata versions (final resolver; version and package must come back as the base has them), plus random longer ones and (base, rel1, rel2) triples for composition; non-trivial = rel contains '..' or base has a sub-path; distinct by (base, rel[, rel2])"
 		r := NewRng(cfg.Seed)
 		var reqs, impl []string
 		var human []interface{}
@@ -98,6 +98,19 @@ func init() {
 			} else {
 				bases = append(bases, "./"+s, "../"+s, "../../"+s)
 			}
+		}
+		// final registry bases whose selected version carries a pre-release and/or build metadata: only the
+		// final resolver takes them (seed C11-f: the version must come back exactly as the base has it)
+		var finalBases []string
+		for _, s := range []string{"", "a/b/c2"} {
+			suf := ""
+			if s != "" {
+				suf = "//" + s
+			}
+			finalBases = append(finalBases,
+				"example.com/foo/bar/baz@1.2.3+build.7"+suf,
+				"foo/bar/baz@2.0.0-beta.1+exp.sha.5114f85"+suf,
+				"example.com/foo/bar/baz@2.3.4-rc.1"+suf)
 		}
 		var rels []string
 		for ups := 0; ups <= 5; ups++ {
@@ -184,6 +197,21 @@ func init() {
 					// same kind / package / version (oracle)
 					if fmt.Sprintf("%T", rf) != fmt.Sprintf("%T", af) {
 						rep.AddOracle(OracleFailure{Property: "C11", Lane: "resolve", What: "result kind differs from base kind", Input: recIn})
+					} else {
+						switch bv := af.(type) {
+						case sourceaddrs.RemoteSource:
+							if rv := rf.(sourceaddrs.RemoteSource); rv.Package() != bv.Package() {
+								rep.AddOracle(OracleFailure{Property: "C11", Lane: "resolve", What: fmt.Sprintf("package changed by relative resolution of a final source: %s, base has %s", rv.Package(), bv.Package()), Input: recIn})
+							}
+						case sourceaddrs.RegistrySourceFinal:
+							rv := rf.(sourceaddrs.RegistrySourceFinal)
+							if rv.Package() != bv.Package() {
+								rep.AddOracle(OracleFailure{Property: "C11", Lane: "resolve", What: fmt.Sprintf("package changed by relative resolution of a final registry source: %s, base has %s", rv.Package(), bv.Package()), Input: recIn})
+							}
+							if rv.SelectedVersion() != bv.SelectedVersion() || rv.SelectedVersion().String() != bv.SelectedVersion().String() {
+								rep.AddOracle(OracleFailure{Property: "C11", Lane: "resolve", What: fmt.Sprintf("selected version changed by relative resolution of a final registry source: result %s has version %s, base %s has version %s", rv, rv.SelectedVersion(), bv, bv.SelectedVersion()), Input: recIn})
+							}
+						}
 					}
 				}
 			} else {
@@ -401,6 +429,11 @@ func init() {
 		for _, b := range bases {
 			for _, rel := range rels {
 				check(b, rel, false)
+				check(b, rel, true)
+			}
+		}
+		for _, b := range finalBases {
+			for _, rel := range rels {
 				check(b, rel, true)
 			}
 		}
